@@ -3,6 +3,8 @@
 package clustermc
 
 import (
+	"strings"
+	"slices"
 	"fmt"
 	"sort"
 	"strconv"
@@ -78,9 +80,27 @@ func ApplyBindOK(w *world.World, brName string) {
 	}
 	p.Annotations[world.ReceivedTypeAnno] = br.Spec.ReceivedResourceType
 	if br.Spec.ReceivedResourceType == "Fraction" {
+		// labels of groups an aborted attempt of a REPLACED request left behind are removed first
+		// (Binder.releaseForeignGpuGroups; checked on the real binder by C11's request-replaced runs)
+		foreign := false
+		for _, g := range world.PodGPUGroups(p) {
+			if !slices.Contains(br.Spec.SelectedGPUGroups, g) {
+				foreign = true
+			}
+		}
+		if foreign {
+			for k := range p.Labels {
+				if k == world.GPUGroupLabel || strings.HasPrefix(k, world.MultiGroupPrefix) {
+					delete(p.Labels, k)
+				}
+			}
+		}
 		world.SetGPUGroupLabels(p.Labels, p.Annotations[world.NumDevicesAnno], br.Spec.SelectedGPUGroups)
 		for _, g := range br.Spec.SelectedGPUGroups {
 			ensureReservation(w, br.Spec.SelectedNode, g)
+		}
+		if foreign {
+			gcReservations(w)
 		}
 	}
 	br.Status.Phase = schedv1alpha2.BindRequestPhaseSucceeded
